@@ -44,7 +44,7 @@ theorem offsetsLoop_succeeds (err : Nat → Tx.TooLarge) : ∀ (sizes : List Nat
 /-- **offsets computed from cached metadata equal offsets computed without it**: after a successful
 `precompute`, every offset function answers from the cache exactly what it answers on the same transaction
 without cache -/
-theorem cached_eq_uncached (id : Bytes) (t t' : Tx) (h : Tx.precompute id t = .ok t') :
+theorem cached_eq_uncached_canon (id : Bytes) (t t' : Tx) (h : Tx.precomputeCanon id t = .ok t') :
     let t0 : Tx := { t with metadata := none }
     t'.val = t.val ∧ t'.kind = t.kind ∧ t'.metadata.isSome = true ∧
     t'.inputsOffset = t0.inputsOffset ∧ t'.outputsOffset = t0.outputsOffset ∧ t'.witnessesOffset = t0.witnessesOffset ∧
@@ -52,7 +52,7 @@ theorem cached_eq_uncached (id : Bytes) (t t' : Tx) (h : Tx.precompute id t = .o
     (∀ i, t'.witnessesOffsetAt i = t0.witnessesOffsetAt i) ∧ (∀ i, t'.inputsPredicateOffsetAt i = t0.inputsPredicateOffsetAt i) ∧
     (t.kind = .script → t'.scriptDataOffset = t0.scriptDataOffset ∧ t'.bodyOffsetEnd = t0.bodyOffsetEnd) := by
   intro t0
-  simp only [Tx.precompute] at h
+  simp only [Tx.precomputeCanon] at h
   split at h
   · cases h
   · rename_i common hc
@@ -94,9 +94,9 @@ theorem cached_eq_uncached (id : Bytes) (t t' : Tx) (h : Tx.precompute id t = .o
             rfl
 
 /-- `precompute` succeeds whenever the encoding's size fits a `usize` -/
-theorem precompute_succeeds (id : Bytes) (t : Tx)
+theorem precompute_succeeds_canon (id : Bytes) (t : Tx)
     (hfit : ({ t with metadata := none } : Tx).witnessesOffset + sumSizes (t.witnesses.map Tx.witnessSize) ≤ USIZE_MAX) :
-    ∃ t', Tx.precompute id t = .ok t' := by
+    ∃ t', Tx.precomputeCanon id t = .ok t' := by
   generalize ht0 : ({ t with metadata := none } : Tx) = t0 at hfit
   have hw : t0.witnesses = t.witnesses := by rw [← ht0]; rfl
   have hm : t0.metadata = none := by rw [← ht0]
@@ -106,7 +106,119 @@ theorem precompute_succeeds (id : Bytes) (t : Tx)
   obtain ⟨l1, hl1⟩ := offsetsLoop_succeeds .input (t0.inputs.map Tx.inputSize) t0.inputsOffset 0 (by omega)
   obtain ⟨l2, hl2⟩ := offsetsLoop_succeeds .output (t0.outputs.map Tx.outputSize) t0.outputsOffset 0 (by omega)
   obtain ⟨l3, hl3⟩ := offsetsLoop_succeeds .witness (t0.witnesses.map Tx.witnessSize) t0.witnessesOffset 0 (by rw [hw]; omega)
-  simp only [Tx.precompute, ht0, Tx.computeCommon, hl1, hl2, hl3]
+  simp only [Tx.precomputeCanon, ht0, Tx.computeCommon, hl1, hl2, hl3]
   exact ⟨_, rfl⟩
+
+
+/-! ### the order of effects of the real `precompute` bodies -/
+
+/-- **obligation on the regenerated order**: every chargeable kind resets the metadata BEFORE anything reads the object, and
+stores last (Script reads `script_data_offset` after the common metadata; Create / Upgrade compute their body metadata; Upload /
+Blob have none). A read hoisted above the reset, or a dropped reset, changes the table and this no longer holds. -/
+theorem precompute_order : Tx.stepsOf .script = [.reset, .common, .script, .store] ∧ Tx.stepsOf .create = [.reset, .common, .other, .store] ∧
+    Tx.stepsOf .upgrade = [.reset, .common, .other, .store] ∧ Tx.stepsOf .upload = [.reset, .common, .store] ∧
+    Tx.stepsOf .blob = [.reset, .common, .store] := by decide +kernel
+
+/-- with that order, `precompute` is reset-then-compute, whatever cache the object carried before -/
+theorem precompute_eq_canon (idOf : Tx → Bytes) (t : Tx) (hk : t.kind.chargeable = true) :
+    Tx.precompute idOf t = Tx.precomputeCanon (idOf { t with metadata := none }) t := by
+  obtain ⟨o1, o2, o3, o4, o5⟩ := precompute_order
+  obtain ⟨k, v, m⟩ := t
+  simp only [Tx.precompute, Tx.precomputeCanon]
+  cases k
+  case mint => simp [Kind.chargeable] at hk
+  all_goals
+    simp only [o1, o2, o3, o4, o5, Tx.runSteps]
+    split <;> simp_all [Tx.runSteps]
+
+/-- **offsets computed from cached metadata equal offsets computed without it**, whatever (possibly stale) cache the object
+carried when `precompute` was called -/
+theorem cached_eq_uncached (idOf : Tx → Bytes) (t t' : Tx) (hk : t.kind.chargeable = true) (h : Tx.precompute idOf t = .ok t') :
+    let t0 : Tx := { t with metadata := none }
+    t'.val = t.val ∧ t'.kind = t.kind ∧ t'.metadata.isSome = true ∧
+    t'.inputsOffset = t0.inputsOffset ∧ t'.outputsOffset = t0.outputsOffset ∧ t'.witnessesOffset = t0.witnessesOffset ∧
+    (∀ i, t'.inputsOffsetAt i = t0.inputsOffsetAt i) ∧ (∀ i, t'.outputsOffsetAt i = t0.outputsOffsetAt i) ∧
+    (∀ i, t'.witnessesOffsetAt i = t0.witnessesOffsetAt i) ∧ (∀ i, t'.inputsPredicateOffsetAt i = t0.inputsPredicateOffsetAt i) ∧
+    (t.kind = .script → t'.scriptDataOffset = t0.scriptDataOffset ∧ t'.bodyOffsetEnd = t0.bodyOffsetEnd) := by
+  rw [precompute_eq_canon idOf t hk] at h
+  exact cached_eq_uncached_canon _ t t' h
+
+theorem precompute_succeeds (idOf : Tx → Bytes) (t : Tx) (hk : t.kind.chargeable = true)
+    (hfit : ({ t with metadata := none } : Tx).witnessesOffset + sumSizes (t.witnesses.map Tx.witnessSize) ≤ USIZE_MAX) :
+    ∃ t', Tx.precompute idOf t = .ok t' := by
+  rw [precompute_eq_canon idOf t hk]
+  exact precompute_succeeds_canon _ t hfit
+
+/-! ### any history of edits and precomputes -/
+
+/-- what a client can do to a transaction object: edit it through the public mutators (the cache is NOT touched), or precompute -/
+inductive Op
+  | edit (v : Val)
+  | precompute
+  deriving Repr, Inhabited
+
+def applyOp (idOf : Tx → Bytes) (t : Tx) : Op → Except Tx.TooLarge Tx
+  | .edit v => .ok { t with val := v }
+  | .precompute => Tx.precompute idOf t
+
+def runOps (idOf : Tx → Bytes) : Tx → List Op → Except Tx.TooLarge Tx
+  | t, [] => .ok t
+  | t, op :: rest =>
+    match applyOp idOf t op with
+    | .error e => .error e
+    | .ok t' => runOps idOf t' rest
+
+theorem runOps_append (idOf : Tx → Bytes) : ∀ (ops : List Op) (t t' : Tx) (op : Op), runOps idOf t (ops ++ [op]) = .ok t' →
+    ∃ t1, runOps idOf t ops = .ok t1 ∧ applyOp idOf t1 op = .ok t' := by
+  intro ops
+  induction ops with
+  | nil =>
+    intro t t' op h
+    simp only [List.nil_append, runOps] at h
+    cases ha : applyOp idOf t op with
+    | error e => simp [ha] at h
+    | ok t1 => simp only [ha, Except.ok.injEq] at h; exact ⟨t, rfl, by rw [ha, h]⟩
+  | cons o ops ih =>
+    intro t t' op h
+    simp only [List.cons_append, runOps] at h ⊢
+    cases ha : applyOp idOf t o with
+    | error e => simp [ha] at h
+    | ok t1 => simp only [ha] at h ⊢; exact ih t1 t' op h
+
+theorem applyOp_kind (idOf : Tx → Bytes) (t t' : Tx) (hk : t.kind.chargeable = true) (op : Op) (h : applyOp idOf t op = .ok t') : t'.kind = t.kind := by
+  cases op with
+  | edit v => simp only [applyOp, Except.ok.injEq] at h; subst h; rfl
+  | precompute => exact (cached_eq_uncached idOf t t' hk h).2.1
+
+theorem runOps_kind (idOf : Tx → Bytes) : ∀ (ops : List Op) (t t' : Tx), t.kind.chargeable = true → runOps idOf t ops = .ok t' → t'.kind = t.kind := by
+  intro ops
+  induction ops with
+  | nil => intro t t' _ h; simp only [runOps, Except.ok.injEq] at h; subst h; rfl
+  | cons o ops ih =>
+    intro t t' hk h
+    simp only [runOps] at h
+    cases ha : applyOp idOf t o with
+    | error e => simp [ha] at h
+    | ok t1 =>
+      simp only [ha] at h
+      have k1 := applyOp_kind idOf t t1 hk o ha
+      rw [← k1]; exact ih t1 t' (by rw [k1]; exact hk) h
+
+/-- **after ANY sequence of edits and precomputes that ends with a precompute, every cached offset is the offset of the
+current content** (computed without cache) -/
+theorem cached_offsets_after_history (idOf : Tx → Bytes) (ops : List Op) (t t' : Tx) (hk : t.kind.chargeable = true)
+    (h : runOps idOf t (ops ++ [.precompute]) = .ok t') :
+    let t0 : Tx := { kind := t'.kind, val := t'.val, metadata := none }
+    t'.metadata.isSome = true ∧
+    t'.inputsOffset = t0.inputsOffset ∧ t'.outputsOffset = t0.outputsOffset ∧ t'.witnessesOffset = t0.witnessesOffset ∧
+    (∀ i, t'.inputsOffsetAt i = t0.inputsOffsetAt i) ∧ (∀ i, t'.outputsOffsetAt i = t0.outputsOffsetAt i) ∧
+    (∀ i, t'.witnessesOffsetAt i = t0.witnessesOffsetAt i) ∧ (∀ i, t'.inputsPredicateOffsetAt i = t0.inputsPredicateOffsetAt i) ∧
+    (t'.kind = .script → t'.scriptDataOffset = t0.scriptDataOffset ∧ t'.bodyOffsetEnd = t0.bodyOffsetEnd) := by
+  obtain ⟨t1, h1, h2⟩ := runOps_append idOf ops t t' .precompute h
+  have k1 := runOps_kind idOf ops t t1 hk h1
+  have hk1 : t1.kind.chargeable = true := by rw [k1]; exact hk
+  obtain ⟨e1, e2, e3, r⟩ := cached_eq_uncached idOf t1 t' hk1 h2
+  simp only [e1, e2]
+  exact ⟨e3, r⟩
 
 end FuelVerif.Offsets
